@@ -43,6 +43,7 @@ func (ex *Exec) envFor(fr *Frame, st *State) *Env {
 				env.vars[names[i]] = ex.valTV(v, p.Type(), st)
 				if v.P != nil {
 					env.vars[names[i]+"$isnil"] = TV{v.P.NilT, "Bool"}
+					env.vars[names[i]+"$ref"] = TV{ex.pure(v, p.Type(), st), "Ref"}
 				}
 			}
 		}
